@@ -218,6 +218,63 @@ class Model:
             elif isinstance(node, ast.AnnAssign) and isinstance(node.target, ast.Name):
                 if node.value is not None:
                     mod.constants[node.target.id] = node.value
+        self._partials_as_functions(mod)
+
+    def _partials_as_functions(self, mod: ModuleInfo) -> None:
+        """``name = partial(f, a, k=v)`` at module level with ``f`` a function of the module is the function
+        ``def name(<the remaining parameters of f>): return f(a, <them>, k=v)`` - indexed as such, so that it can be
+        summarised, resolved as a callee and read through like any other small helper."""
+        import copy
+
+        for name, node in list(mod.constants.items()):
+            if not (isinstance(node, ast.Call) and (getattr(node.func, "id", None) or getattr(node.func, "attr", None)) == "partial" and node.args and isinstance(node.args[0], ast.Name)):
+                continue
+            f = mod.functions.get(node.args[0].id)
+            if f is None or name in mod.functions or any(isinstance(a, ast.Starred) for a in node.args) or any(k.arg is None for k in node.keywords):
+                continue
+            a = copy.deepcopy(f.node.args)
+            npos = len(node.args) - 1
+            allpos = a.posonlyargs + a.args
+            if npos > len(allpos):
+                continue
+            bound_kw = {k.arg for k in node.keywords}
+            # defaults belong to the LAST len(defaults) positional parameters
+            dflt = dict(zip([p.arg for p in allpos][len(allpos) - len(a.defaults) :], a.defaults))
+            rest = [p for p in allpos[npos:] if p.arg not in bound_kw]
+            kwonly = [(p, d) for p, d in zip(a.kwonlyargs, a.kw_defaults) if p.arg not in bound_kw]
+            # a parameter without default after one with default is not expressible: make the rest keyword-only then
+            new_args = ast.arguments(posonlyargs=[], args=[], vararg=None, kwonlyargs=[], kw_defaults=[], kwarg=a.kwarg, defaults=[])
+            seen_default = False
+            for p in rest:
+                if p.arg in dflt:
+                    seen_default = True
+                    new_args.args.append(p)
+                    new_args.defaults.append(dflt[p.arg])
+                elif seen_default:
+                    new_args.kwonlyargs.append(p)
+                    new_args.kw_defaults.append(None)
+                else:
+                    new_args.args.append(p)
+            for p, d in kwonly:
+                new_args.kwonlyargs.append(p)
+                new_args.kw_defaults.append(d)
+            call = ast.Call(
+                func=ast.Name(id=f.name, ctx=ast.Load()),
+                args=list(node.args[1:]),
+                keywords=[ast.keyword(arg=p.arg, value=ast.Name(id=p.arg, ctx=ast.Load())) for p in rest]
+                + [ast.keyword(arg=p.arg, value=ast.Name(id=p.arg, ctx=ast.Load())) for p, _ in kwonly]
+                + list(node.keywords)
+                + ([ast.keyword(arg=None, value=ast.Name(id=a.kwarg.arg, ctx=ast.Load()))] if a.kwarg is not None else []),
+            )
+            fd = ast.FunctionDef(name=name, args=new_args, body=[ast.Return(value=call)], decorator_list=[], returns=f.node.returns, type_params=[])
+            ast.copy_location(fd, node)
+            for sub in ast.walk(fd):
+                if not hasattr(sub, "lineno"):
+                    ast.copy_location(sub, node)
+            ast.fix_missing_locations(fd)
+            fd.end_lineno = getattr(node, "end_lineno", node.lineno)
+            del mod.constants[name]
+            self._index_function(mod, fd, None, None, mod.name)
 
     def _collect_imports(self, mod: ModuleInfo, body: list[ast.stmt], table: dict[str, str]) -> None:
         for node in body:
